@@ -1,6 +1,7 @@
 package web
 
 import (
+	"context"
 	"errors"
 
 	"github.com/junioryono/godi/v4"
@@ -67,6 +68,34 @@ func newFailCtrl(sc godi.Scope, s *ReqSvc) (*FailCtrl, error) {
 	return nil, errCtor
 }
 
+// InitDep is a transient disposable that the scope initializer takes: it is created for every
+// scope - also for one whose creation then fails.
+type InitDep struct{ *inst }
+
+// Close records the close event.
+func (d *InitDep) Close() error { return d.inst.close() }
+
+func newInitDep(sc godi.Scope) *InitDep { return &InitDep{inst: cur.Load().newInst("InitDep", sc)} }
+
+var errInitInjected = errors.New("verif: scope initializer fails for this request")
+
+// reqInit is a scope initializer (a constructor without a result). It fails when the plan of the
+// request the scope is created for says so.
+func reqInit(ctx context.Context, d *InitDep) error {
+	st, _ := ctx.Value(reqCtxKey{}).(*reqState)
+	if st == nil {
+		return nil // root scope, application scope, or an integration that hides the request context
+	}
+	st.mu.Lock()
+	defer st.mu.Unlock()
+	st.initInsts = append(st.initInsts, d.inst)
+	if st.plan.Exit == ExitInitFail {
+		st.initFailed = true
+		return errInitInjected
+	}
+	return nil
+}
+
 // buildProvider registers the harness services with real godi and builds the provider.
 func buildProvider() (godi.Provider, error) {
 	c := godi.NewCollection()
@@ -83,6 +112,12 @@ func buildProvider() (godi.Provider, error) {
 		return nil, err
 	}
 	if err := c.AddTransient(newTCtrl); err != nil {
+		return nil, err
+	}
+	if err := c.AddTransient(newInitDep); err != nil {
+		return nil, err
+	}
+	if err := c.AddScoped(reqInit); err != nil {
 		return nil, err
 	}
 	return c.Build()
